@@ -13,7 +13,7 @@
 (* refuted by TLC, which shows the invariant is not vacuous.                                          *)
 EXTENDS Integers, Sequences, FiniteSets, TLC, Json
 
-CONSTANTS Kind,       \* "ideal" | "single"
+CONSTANTS Kind,       \* "ideal" | "single" | "twophase" (= single phase without a schedule argument) | "multiphase" (simulate not implemented)
           MaxDepth,   \* bound on the number of calls in a history
           Deviation,  \* "none" | "KeepsCache" | "ClobbersPf"
           Export      \* TRUE: print every maximal history with its per-step expectations
@@ -44,14 +44,15 @@ Calls    == SimCalls \cup {[op |-> "rf", mode |-> m] : m \in Modes} \cup {[op |-
 Rejected(c) == c.op = "simulate" /\ c.sched # "none" /\ SchedLen[c.sched] # GridLen[c.grid]
 
 \* ---- declarative side: the fresh-object oracle ---------------------------------------------------------
-IsGoodSim(c) == c.op = "simulate" /\ ~Rejected(c)
+NotImplemented(c) == Kind = "multiphase" /\ c.op = "simulate"     \* MultiPhaseReservoir.simulate always raises, changes nothing
+IsGoodSim(c) == c.op = "simulate" /\ ~Rejected(c) /\ ~NotImplemented(c)
 
 \* index of the latest successful simulate in h (0 if none)
 LastSim(h) == IF \E i \in 1..Len(h) : IsGoodSim(h[i])
               THEN CHOOSE i \in 1..Len(h) : IsGoodSim(h[i]) /\ \A j \in (i + 1)..Len(h) : ~IsGoodSim(h[j])
               ELSE 0
 \* a rejected simulate after the latest successful one leaves the object unspecified
-Unspecified(h) == \E j \in (LastSim(h) + 1)..Len(h) : h[j].op = "simulate"
+Unspecified(h) == \E j \in (LastSim(h) + 1)..Len(h) : h[j].op = "simulate" /\ ~NotImplemented(h[j])
 
 FreshSim(c) == [grid |-> c.grid, sched |-> IF c.sched = "none" THEN "ctor" ELSE Canon(c.sched)]
 
@@ -67,7 +68,8 @@ FreshObs(h) ==
     LET n == Len(h)
         c == h[n]
         k == LastSim(h)
-    IN  IF Rejected(c) THEN [kind |-> "ValueError"]
+    IN  IF NotImplemented(c) THEN [kind |-> "NotImplementedError"]
+        ELSE IF Rejected(c) THEN [kind |-> "ValueError"]
         ELSE IF Unspecified(h) THEN [kind |-> "unspecified"]
         ELSE IF k = 0 THEN [kind |-> "RuntimeError"]
         ELSE IF c.op = "simulate" THEN [kind |-> "sim", of |-> FreshSim(c)]
@@ -88,8 +90,13 @@ SimulateReject(c) ==
     /\ UNCHANGED <<sim, cache, pfAttr>>
     /\ Record(c, [kind |-> "ValueError"])
 
+SimulateNotImplemented(c) ==
+    /\ NotImplemented(c)
+    /\ UNCHANGED <<sim, cache, pfAttr, tainted>>
+    /\ Record(c, [kind |-> "NotImplementedError"])
+
 Simulate(c) ==
-    /\ c \in SimCalls /\ ~Rejected(c)
+    /\ c \in SimCalls /\ ~Rejected(c) /\ ~NotImplemented(c)
     /\ LET eff == IF c.sched = "none" THEN pfAttr ELSE Canon(c.sched)      \* schedule actually used
            s   == [grid |-> c.grid, sched |-> eff]
        IN  /\ sim' = s
@@ -115,7 +122,7 @@ Interp(c) ==
                 /\ UNCHANGED <<sim, pfAttr, tainted>>
                 /\ Record(c, [kind |-> "interp", of |-> used.sim, mode |-> used.mode])
 
-Do(c) == SimulateReject(c) \/ Simulate(c) \/ RF(c) \/ Interp(c)
+Do(c) == SimulateNotImplemented(c) \/ SimulateReject(c) \/ Simulate(c) \/ RF(c) \/ Interp(c)
 
 Init == /\ sim = NoSim /\ cache = NoCache /\ pfAttr = "ctor" /\ tainted = FALSE
         /\ hist = <<>> /\ obs = [kind |-> "none"] /\ exp = <<>>
